@@ -11,14 +11,14 @@ def tlc_store(ctx, cfg, timeout=900, workers=1, heap="6g"):
     return res
 
 
-def replay(ctx, edges, name, seed=None, workers=None):
+def replay(ctx, edges, name, seed=None, workers=None, sweep=False):
     exe = ctx.build("./cmd/storereplay")
     ef = os.path.join(ctx.scratch, name + ".edges.ndjson")
     vlib.write_ndjson(ef, edges)
     of = os.path.join(ctx.scratch, name + ".result.json")
     sc = os.path.join(ctx.scratch, "replay-" + name)
     r = subprocess.run([exe, "-edges", ef, "-scratch", sc, "-seed", str(seed if seed is not None else ctx.seed),
-                        "-workers", str(workers or vlib.NCPU), "-out", of],
+                        "-workers", str(workers or vlib.NCPU), "-out", of] + (["-lengthsweep"] if sweep else []),
                        stdout=subprocess.PIPE, stderr=subprocess.STDOUT, text=True)
     if r.returncode != 0:
         ctx.fatal("storereplay failed (%d): %s" % (r.returncode, r.stdout[-2000:]))
@@ -44,7 +44,7 @@ def add_cov(ctx, res, out, label):
         ctx.sample(s)
 
 
-def run_family(ctx, want_names=False, want_quick=True, only_ops=None, seeds=None):
+def run_family(ctx, want_names=False, want_quick=True, only_ops=None, seeds=None, sweep=False):
     """quick: exhaustive 2-user model, every edge replayed. thorough: + more seeds + 3-set model."""
     seeds = seeds or [ctx.seed]
     if want_quick:
@@ -53,7 +53,7 @@ def run_family(ctx, want_names=False, want_quick=True, only_ops=None, seeds=None
         if only_ops:
             edges = [e for e in edges if e["op"] in only_ops]
         for s in seeds:
-            out = replay(ctx, edges, "quick-s%d" % s, seed=s)
+            out = replay(ctx, edges, "quick-s%d" % s, seed=s, sweep=sweep)
             add_cov(ctx, res, out, "MC_Store_quick seed %d" % s)
     if want_names:
         res = tlc_store(ctx, "MC_Store_names.cfg")
